@@ -1187,7 +1187,7 @@ func Run(c *hx.Ctx) {
 		// sds contexts sharing secret names (share.go); own generator stream
 		gh := &gen{r: c.Rng.Fork().Fork().Fork().Fork().Fork().Fork(), c: c}
 		runShrFixed(c, l)
-		for i := 0; i < c.N(600, 4000); i++ {
+		for i := 0; i < c.N(600, 2500); i++ {
 			runShrRandom(c, gh, l)
 		}
 	}
